@@ -137,6 +137,7 @@ func runC20(c *Ctx) {
 		c.seeFn(funcName(fn))
 		checkPaginationShape(c, fn, name)
 		checkIndexDiscipline(c, fn, name)
+		checkConExits(c, fn, name)
 	}
 	checkCursorFns(c)
 	checkSourcesOrdered(c)
@@ -907,6 +908,65 @@ func checkEdgeAndConMakers(c *Ctx) {
 			}
 			c.Check(okCursor, "R20.7", key+":edge-cursor", w.FnPos(em), "Cursor = OffsetToCursor(offset)", "the edge maker does not derive the cursor from the offset it is given: the cursors a client sends back do not designate the elements they were attached to")
 			c.Check(okNode, "R20.7", key+":edge-node", w.FnPos(em), "the edge carries the node it was made for", "the edge maker does not put the node it is given into the edge")
+			// the nodes of the connection are those of the page handed in (the nodes or edges parameter), never a captured list
+			{
+				badNodes := ""
+				nNodes := 0
+				for _, st := range storedToField(cm, "Nodes") {
+					nNodes++
+					fromParam, fromFree := false, ""
+					var vals []ssa.Value
+					vals = append(vals, st.Val)
+					vals = append(vals, sliceElementValues(st.Val)...)
+					vals = append(vals, appendedValues(st.Val)...)
+					for _, v := range vals {
+						for k := range feedTokens(v) {
+							if strings.HasPrefix(k, "param:") {
+								fromParam = true
+							}
+						}
+						for _, o := range origins(v) {
+							if o.Kind == "param" {
+								fromParam = true
+							}
+						}
+						// &x[i]: the list indexed
+						if ia, isIA := v.(*ssa.IndexAddr); isIA {
+							for _, o := range origins(ia.X) {
+								switch o.Kind {
+								case "param":
+									fromParam = true
+								case "freevar":
+									fromFree = o.Name
+								}
+							}
+						}
+						// &c of a loop variable: what is stored into it
+						if al, isAl := v.(*ssa.Alloc); isAl {
+							for _, r := range *al.Referrers() {
+								if s2, isSt := r.(*ssa.Store); isSt && s2.Addr == ssa.Value(al) {
+									for _, o := range origins(s2.Val) {
+										switch o.Kind {
+										case "param":
+											fromParam = true
+										case "freevar":
+											fromFree = o.Name
+										}
+									}
+								}
+							}
+						}
+					}
+					if fromFree != "" {
+						badNodes = "the nodes are taken from the captured variable " + fromFree
+					} else if !fromParam {
+						badNodes = "the nodes do not come from the page handed to the connection maker"
+					}
+				}
+				if nNodes > 0 {
+					c.Check(badNodes == "", "R20.7", key+":nodes-of-the-page", w.FnPos(cm), "nodes built from the page handed in", badNodes+": edges, cursors and page info describe the requested window while 'nodes' lists other elements (always the head of the list)")
+				}
+			}
 			okInfo, okTotal, okEdges := false, false, false
 			for _, st := range storedToField(cm, "PageInfo") {
 				if st.Val == ssa.Value(cm.Params[2]) {
@@ -1088,4 +1148,85 @@ func checkArrayIndexBounds(c *Ctx) {
 		}
 	}
 	c.Info("R20.8", "array-index-sites", "api/graphql", fmt.Sprintf("%d computed accesses to fixed-size arrays", n))
+}
+
+
+// R20.9: every page is answered by the connection maker, and the two truncations are independent.
+func checkConExits(c *Ctx, fn *ssa.Function, name string) {
+	w := c.W
+	c.Doc("R20.9", "in every pagination function each return without error hands back the result of the connection maker (total count and page info are never replaced by an empty connection for some page size); the 'last' truncation is tested on every path that passed the 'first' truncation (giving 'first' does not disable 'last')")
+	// the conMaker parameter: the function-typed parameter whose result type is the function's first result
+	var conMaker *ssa.Parameter
+	for _, p := range fn.Params {
+		if sig, ok := p.Type().Underlying().(*types.Signature); ok && sig.Results().Len() == 2 && fn.Signature.Results().Len() == 2 && types.Identical(sig.Results().At(0).Type(), fn.Signature.Results().At(0).Type()) {
+			conMaker = p
+		}
+	}
+	if conMaker == nil {
+		c.Undecided("R20.9", name+":answers-through-the-connection-maker", w.FnPos(fn), "no connection maker parameter found")
+		return
+	}
+	bad := ""
+	n := 0
+	for _, r := range Returns(fn) {
+		if returnKind(r) == RetError {
+			continue
+		}
+		n++
+		c.Sites++
+		ok := false
+		for _, o := range origins(ReturnResult(r, 0)) {
+			if cv, isCall := o.Val.(*ssa.Call); isCall && o.Kind == "call" && cv.Common().Value == ssa.Value(conMaker) {
+				// … called for this page: with a computed total count (the empty connection used for error exits is made with the constant 0)
+				if args := cv.Common().Args; len(args) > 0 {
+					if _, isK := args[len(args)-1].(*ssa.Const); !isK {
+						ok = true
+					}
+				}
+			}
+		}
+		if !ok {
+			bad = "the return at " + w.InstrPos(r) + " answers without calling the connection maker"
+		}
+	}
+	c.Check(n > 0 && bad == "", "R20.9", name+":answers-through-the-connection-maker", w.FnPos(fn), fmt.Sprintf("%d success return(s), all results of the connection maker", n),
+		bad+": for that request the total count is reported as 0 and both page flags as false although the list has elements")
+	// first / last independent
+	var firstIf, lastIf *ssa.If
+	for _, b := range fn.Blocks {
+		if len(b.Instrs) == 0 {
+			continue
+		}
+		iff, ok := b.Instrs[len(b.Instrs)-1].(*ssa.If)
+		if !ok {
+			continue
+		}
+		bo, isBo := iff.Cond.(*ssa.BinOp)
+		if !isBo || (bo.Op != token.NEQ && bo.Op != token.EQL) || !(isNilConst(bo.X) || isNilConst(bo.Y)) {
+			continue
+		}
+		v := bo.X
+		if isNilConst(v) {
+			v = bo.Y
+		}
+		if hasField(v, "First") && firstIf == nil {
+			firstIf = iff
+		}
+		if hasField(v, "Last") && lastIf == nil {
+			lastIf = iff
+		}
+	}
+	if firstIf == nil || lastIf == nil {
+		c.Undecided("R20.9", name+":last-independent-of-first", w.FnPos(fn), "the nil tests of First and Last were not found")
+		return
+	}
+	c.Sites++
+	// the Last test is reachable after the First truncation was applied (from the 'First given' edge)
+	given := 0
+	if bo := firstIf.Cond.(*ssa.BinOp); bo.Op == token.EQL {
+		given = 1
+	}
+	reach := reaches(firstIf.Block().Succs[given], lastIf.Block())
+	c.Check(reach, "R20.9", name+":last-independent-of-first", w.InstrPos(lastIf), "'last' is tested whether or not 'first' was given",
+		"when 'first' is given the 'last' argument is never looked at: a request carrying both returns elements outside the requested window and wrong page flags")
 }
